@@ -317,6 +317,14 @@ func (vr *variableResolver) resolve(ctx *ExecutionContext) (*Value, error) {
 							// In Django, exceeding the length of a list is just empty.
 							return AsValue(nil), nil
 						}
+					case reflect.Map:
+						// m.1 is the entry with the key 1 (like m[1]); a missing key, and a map
+						// whose keys are no numbers, yields the empty value
+						key := reflect.ValueOf(part.i)
+						if !key.Type().AssignableTo(current.Type().Key()) {
+							return AsValue(nil), nil
+						}
+						current = current.MapIndex(key)
 					default:
 						return nil, fmt.Errorf("can't access an index on type %s (variable %s)",
 							current.Kind().String(), vr.String())
